@@ -199,8 +199,10 @@ def serde_strict(R, ctx):
     vm = [f for f in lib.fn_list if f["path"].endswith("::visit_map") and "dyn rules::Rule" in f["path"] and thir.body_of(f)]
     if R.require(rid, "visit_map|anchor", len(vm) == 1, "", "%d candidates" % len(vm)):
         f = vm[0]
-        dup = [c for c in thir.fn_refs(f) if c.get("fname") == "duplicate_field"]
-        R.ob(rid, "visit_map|duplicate-reserved-keys", len(dup) >= 3, ctx.where(f), "%d duplicate_field errors (rule, apply_to_files, skip_files)" % len(dup))
+        arms = interproc.key_arms(f)
+        is_dup = lambda n: n.get("fname") == "duplicate_field" and n.get("k") in ("Call", "Zst") and "fn" in n
+        dup = [k for k in ("rule", "apply_to_files", "skip_files") if k in arms and interproc.reaches(lib, arms[k], is_dup)]
+        R.ob(rid, "visit_map|duplicate-reserved-keys", len(dup) >= 3, ctx.where(f), "the arms of %s refuse a second occurrence (duplicate_field), directly or in a local helper" % dup)
         a = ctx.an.fa(f["path"])
         ins = [c for c in thir.calls(f) if c.get("fname") == "insert" and "HashMap" in (c.get("fn") or "")]
         ok = False
